@@ -4791,7 +4791,7 @@ class QNTSimplifyMacro(Macro):
             raise VeriTException("qnf_simplify", "lhs should be a quantification")
         
         _, l_bd = lhs.strip_quant()
-        if l_bd == rhs:
+        if l_bd == rhs and rhs in (true, false):
             return Thm(goal)
         else:
             raise VeriTException("qnf_simplify", "unexpected result")
